@@ -879,6 +879,25 @@ spifconf_open_file(spif_charptr_t name)
     return (fp);
 }
 
+/* Is the file open on fp one of the files which are currently being parsed? */
+static spif_bool_t
+spifconf_file_is_open(FILE *fp)
+{
+    struct stat st_new, st_old;
+    unsigned short i;
+
+    if (fstat(fileno(fp), &st_new)) {
+        return FALSE;
+    }
+    for (i = 1; i <= fstate_idx; i++) {
+        if (fstate[i].fp && !fstat(fileno(fstate[i].fp), &st_old)
+            && (st_new.st_dev == st_old.st_dev) && (st_new.st_ino == st_old.st_ino)) {
+            return TRUE;
+        }
+    }
+    return FALSE;
+}
+
 #define SPIFCONF_PARSE_RET()  do {if (!fp) {file_pop(); ctx_end();} return;} while (0)
 void
 spifconf_parse_line(FILE * fp, spif_charptr_t buff)
@@ -919,6 +938,11 @@ spifconf_parse_line(FILE * fp, spif_charptr_t buff)
               if (!(fp = spifconf_open_file(path))) {
                   libast_print_error("Parsing file %s, line %lu:  Unable to locate %%included config file %s (%s), continuing\n", file_peek_path(),
                               file_peek_line(), path, strerror(errno));
+                  FREE(path);
+              } else if (spifconf_file_is_open(fp)) {
+                  libast_print_error("Parsing file %s, line %lu:  Recursive %%include of %s ignored\n", file_peek_path(),
+                              file_peek_line(), path);
+                  fclose(fp);
                   FREE(path);
               } else {
                   file_push(fp, path, NULL, 1, 0);
